@@ -218,7 +218,7 @@ proof fn lemma_next_end3_sem(dg: &Dg, q0: Seq<Step>, vis0: Seq<bool>, q: Seq<Ste
     lemma_hop(has, srcs, qv[0], lv[0]);
     assert(pv[0] == opt_int(q0[0].0));
     assert forall|i: int| 0 <= i < q.len() implies hop(has, srcs, qv[0]) <= hop(has, srcs, (#[trigger] q[i]).1 as int) by {
-        lemma_queue_exact(has, qv2, lv2, vis, srcs, d2, i);
+        lemma_queue_exact_o(has, qv2, lv2, vis, srcs, d2, i);
         lemma_hop(has, srcs, qv2[i], lv2[i]);
         assert(lv[0] <= lv2[i]);
     }
@@ -258,8 +258,7 @@ proof fn lemma_exhausted3(dg: &Dg, q: Seq<Step>, vis: Seq<bool>)
 {
     assert forall|srcs: Set<int>| #[trigger] inv3(dg, q, vis, srcs) implies (forall|v: int| is_done(qv_of3(q), vis, v) <==> reachable(dg_has(dg), srcs, v)) by {
         let (lv, d) = choose|lv: Seq<int>, d: spec_fn(int) -> int| pinv(dg_has(dg), qv_of3(q), pv_of3(q), lv, vis, srcs, d);
-        assert(binv(dg_has(dg), qv_of3(q), lv, vis, srcs, d));
-        lemma_exhausted_ex(dg_has(dg), qv_of3(q), lv, vis, srcs);
+        lemma_exhausted_o(dg_has(dg), qv_of3(q), lv, vis, srcs, d);
     }
 }
 
@@ -454,8 +453,8 @@ impl<'a> BfsPred<'a> {
     {
         let lv = Seq::new(self.qv().len(), |i: int| 0int);
         let d = |v: int| 0int;
-        lemma_fresh(self.has(), self.qv(), lv, self.visited@);
-        assert forall|i: int| 0 <= i < self.qv().len() implies pitem_ok(self.has(), self.qv(), self.visited@, self.srcs(), d, #[trigger] pv_of3(self.queue@)[i], self.qv()[i]) by {
+        lemma_fresh_o(self.has(), self.qv(), lv, self.visited@);
+        assert forall|i: int| 0 <= i < self.qv().len() implies #[trigger] pitem_at(self.has(), self.qv(), pv_of3(self.queue@), self.visited@, self.srcs(), d, i) by {
             assert(self.queue@[i].0 is None);
             assert(self.qv().contains(self.qv()[i]));
         }
